@@ -623,7 +623,7 @@ pub fn run(run: &Run) {
     run.assume("the application keeps accepting and reads each delivered stream in its own task");
     prop_search(
         run,
-        Search { check: "independence", cases: run.tier.pick(1200, 12000), workers: 8, max_shrink_iters: 60 },
+        Search { check: "independence", cases: run.tier.pick(1200, 60000), workers: 8, max_shrink_iters: 60 },
         case_strategy,
         |c| judge(|| exec(c), true, "C07:blocked"),
         |c| serde_json::to_value(c).unwrap(),
